@@ -174,9 +174,9 @@ SHAPE_BOUNDS = ("key-value set = one concrete trie topology from the shape menu 
 
 
 def _c08():
-    names = ["e_term0_s0", "e_leaf_s0", "e_term1_s1", "s1_leaf_s0", "s1_term0_s0", "s1_leaf_s1", "s2d0_leaf_s1",
-             "s2d0_term1_s1", "s2d0_leaf_s0", "s2d0_leaf_s2", "s2d1_leaf_s2", "s2d1_term1_s1", "s2d1_term2_s2",
-             "s2d1_leaf_s1", ("s2d1_term3_s3", "thorough"), ("s3a_leaf_s2", "thorough"), ("s3a_leaf_s1", "thorough"),
+    names = ["e_term0_s0", "e_leaf_s0", ("e_term1_s1", "thorough"), "s1_leaf_s0", "s1_term0_s0", ("s1_leaf_s1", "thorough"), "s2d0_leaf_s1",
+             "s2d0_term1_s1", ("s2d0_leaf_s0", "thorough"), ("s2d0_leaf_s2", "thorough"), "s2d1_leaf_s2", "s2d1_term1_s1", ("s2d1_term2_s2", "thorough"),
+             ("s2d1_leaf_s1", "thorough"), ("s2d1_term3_s3", "thorough"), ("s3a_leaf_s2", "thorough"), ("s3a_leaf_s1", "thorough"),
              ("s3b_term2_s2", "thorough"), ("s3c_leaf_s3", "thorough"), ("s3c_term2_s2", "thorough")]
     return _family("c08_ps_", "c08", names,
                    "an arbitrary PathProof (terminal kind / terminator depth / sibling count fixed by the shape name, every byte "
@@ -188,7 +188,8 @@ def _c08():
 
 
 def _c05():
-    names = ["e", "s1", "s1_absent", "s2d0_l", "s2d0_r", "s2d1_00", "s2d1_01", "s2d1_1", "s2d2_010", "s2d2_00", "s2d2_1",
+    names = ["e", "s1", "s1_absent", "s2d0_l", ("s2d0_r", "thorough"), ("s2d1_00", "thorough"), "s2d1_01", "s2d1_1",
+             ("s2d2_010", "thorough"), ("s2d2_00", "thorough"), ("s2d2_1", "thorough"),
              ("s3a_0", "thorough"), ("s3a_11", "thorough"), "s3a_compressed", ("s3c_000", "thorough"), ("s3c_01", "thorough"),
              ("s4b_001", "thorough")]
     return _family("c05_hp_", "c05", names,
@@ -221,8 +222,9 @@ def _c02():
     return bt + vc
 
 
-RB_NAMES = ["s4a_absent_del_two_puts", ("s3a_absent_del_put", "thorough"), "s1_insert", "s1_overwrite", "s1_delete", "s1_delete_absent", "s2d0_split", "s2d1_split", "s2d2_split",
-            "s2d1_collapse", "s2d2_collapse", "s2d0_clear", "s2d0_both", ("s3a_delete_left", "thorough"),
+RB_NAMES = ["s4a_absent_del_two_puts", ("s3a_absent_del_put", "thorough"), "s1_insert", "s1_overwrite", "s1_delete", "s1_delete_absent", "s2d0_split",
+            ("s2d1_split", "thorough"), ("s2d2_split", "thorough"),
+            "s2d1_collapse", ("s2d2_collapse", "thorough"), ("s2d0_clear", "thorough"), ("s2d0_both", "thorough"), ("s3a_delete_left", "thorough"),
             ("s3a_insert_mid", "thorough"), ("s3b_collapse_left", "thorough"), ("s3c_delete_deep", "thorough"),
             ("s4a_mixed", "thorough")]
 
@@ -331,6 +333,12 @@ K_LEAF_ACC = _nomt_family("c01_leaf", ["c01_leaf_acc_n0", "c01_leaf_acc_n2_v3_4"
                           "flags symbolic, value lengths concrete per harness, page content before the build arbitrary (4096 symbolic bytes)",
                           F_LEAF, unwind=36, classes="default", timeout_s=900, mem_gb=12,
                           allow_unsat=["absent key looked up", "present key looked up", "layout checked"])
+K_BITOPS = _nomt_family("c01_bitops", ["c01_prefix_len_matches_reference", "c01_separator_len_matches_reference",
+                                        "c01_separate_is_shortest_separator"],
+                        "branch separator arithmetic: a < separate(a,b) <= b, shortest separator, prefix_len / separator_len equal "
+                        "independent word-level references", "every pair of 256-bit keys (full width, all 64 bytes symbolic)",
+                        ["nomt::beatree::ops::bit_ops::separate", "nomt::beatree::ops::bit_ops::prefix_len",
+                         "nomt::beatree::ops::bit_ops::separator_len"], unwind=34, classes="default", timeout_s=1800, mem_gb=8)
 K_LEAF_LAYOUT = _nomt_family("c01_leaf", ["c16_leaf_layout_n0", "c16_leaf_layout_n1_v0", "c16_leaf_layout_n2_v3_4", "c16_leaf_layout_n3_v4_4_4"],
                              "the built leaf page decodes by the documented layout alone (independent decoder): header n, cell pointer = "
                              "key ++ le16(offset | overflow<<15), offsets increasing from 4096-sum(len), last cell ends at 4096, pointer "
@@ -373,7 +381,7 @@ PROPERTIES = {
             "outside": ["store-side witness assembly (sibling patching, path_index offsets across workers)", "shapes beyond the menu"]},
     "C07": {"level": "model_checking", "obligations": _c07(), "explanation": _KANI_EXPL,
             "outside": ["sets beyond the shape menu", "'and as the store itself' (store-side root)"]},
-    "C01": {"level": "model_checking", "obligations": K_LEAF_ACC + [M_OVERFLOW],
+    "C01": {"level": "model_checking", "obligations": K_LEAF_ACC + K_BITOPS + [M_OVERFLOW],
             "explanation": "Solver decisions over the pure steps lookups/updates are composed of: Kani/CBMC over the real leaf-page "
                            "codec, z3 over the MIR of the overflow-page arithmetic.",
             "outside": ["multi-commit histories through threads and files", "staged/secondary lookup shadowing, leaf/branch stages, "
